@@ -181,8 +181,9 @@ func (r *dynRes) List(ctx context.Context, o metav1.ListOptions) (*unstructured.
 		parts := strings.SplitN(o.LabelSelector, "=", 2)
 		match = func(u *unstructured.Unstructured) bool { return len(parts) == 2 && u.GetLabels()[parts[0]] == parts[1] }
 	}
-	items := r.c.doList(r.gvr.Group, r.gvr.Resource, r.ns, match)
+	items, rv := r.c.doListRV(r.gvr.Group, r.gvr.Resource, r.ns, match)
 	l := &unstructured.UnstructuredList{Object: map[string]interface{}{"apiVersion": "v1", "kind": "List"}}
+	l.SetResourceVersion(rv)
 	for _, it := range items {
 		l.Items = append(l.Items, *it)
 	}
@@ -198,7 +199,7 @@ func (r *dynRes) Watch(ctx context.Context, o metav1.ListOptions) (watch.Interfa
 		return nil, r.c.injected("watch")
 	}
 	req.Result = "ok"
-	return r.c.addWatch(ctx, r.gvr.Group, r.gvr.Resource, r.ns), nil
+	return r.c.addWatch(ctx, r.gvr.Group, r.gvr.Resource, r.ns, o.ResourceVersion), nil
 }
 
 func (r *dynRes) Patch(ctx context.Context, name string, pt types.PatchType, data []byte, o metav1.PatchOptions, sub ...string) (*unstructured.Unstructured, error) {
